@@ -27,7 +27,6 @@ import (
 	"os"
 	"path/filepath"
 	"runtime/debug"
-	"runtime/pprof"
 	"sort"
 	"strings"
 	"sync/atomic"
@@ -37,6 +36,7 @@ import (
 
 	"github.com/jech/galene/diskwriter"
 	"github.com/jech/galene/group"
+	"github.com/jech/galene/rtpconn"
 	"github.com/jech/galene/sdpfrag"
 	"github.com/jech/galene/token"
 	"github.com/jech/galene/webserver"
@@ -62,7 +62,7 @@ func runHTTP(res *core.Result) {
 		})
 		collapseViolations(res)
 		res.Assume("HTTP requests are executed in-process through a private mux with the registrations of webserver.Serve (without /ws): TLS, the HTTP/1.1 and HTTP/2 wire parsers of net/http and connection handling are outside the check; request URLs are parsed with url.ParseRequestURI as the server does")
-		res.Assume("WHIP: POST bodies are limited to {empty, garbage, a syntactically valid SDP without media, oversize}, so no WebRTC session ever exists; consequently the PATCH/DELETE paths behind an existing WHIP resource (trickle ICE, restart) are not reached over HTTP (sdpfrag itself is enumerated separately)")
+		res.Assume("WHIP: POST bodies are limited to {empty, garbage, a syntactically valid SDP without media, oversize}, so no WebRTC session ever exists; the WHIP resource handler is exercised on a WHIP client without connection (token check, OPTIONS, DELETE, preconditions, fragment parsing, the no-connection error of PATCH); trickle ICE and ICE restart on a live PeerConnection are not reached over HTTP (sdpfrag itself is enumerated separately)")
 		return
 	}
 	if shardPart() != httpPart {
@@ -229,6 +229,54 @@ func validWhipID() string {
 	return o
 }
 
+var nRouteTemplates int
+
+// A WHIP client without any connection is registered in group "pub" (through
+// the public group API, no PeerConnection is ever created), so that the
+// resource handler gets past its lookup: token comparison, OPTIONS, DELETE,
+// preconditions, content-type, the fragment parser, and the "no connection"
+// error path of PATCH.
+const whipRawID = "whip-client-0001" // 16 bytes
+
+const (
+	phExisting = "WHIP-ID-OF-THE-REGISTERED-CLIENT"
+	phUnknown  = "WHIP-ID-WELL-FORMED-BUT-UNKNOWN"
+)
+
+func resolveIDs(path string) string {
+	if strings.Contains(path, phExisting) {
+		path = strings.Replace(path, phExisting, existingWhipID(), 1)
+	}
+	if strings.Contains(path, phUnknown) {
+		path = strings.Replace(path, phUnknown, validWhipID(), 1)
+	}
+	return path
+}
+
+func whipClientID() string { return base64.RawURLEncoding.EncodeToString([]byte(whipRawID)) }
+
+func existingWhipID() string {
+	o, err := webserver.VerifC12Obfuscate(whipClientID())
+	if err != nil {
+		panic(err)
+	}
+	return o
+}
+
+func ensureWhipClient() error {
+	if g := group.Get("pub"); g != nil && g.GetClient(whipClientID()) != nil {
+		return nil
+	}
+	g, err := group.Add("pub", nil)
+	if err != nil {
+		return err
+	}
+	c := rtpconn.NewWhipClient(g, whipClientID(), "tok1", nil)
+	whip := "whip"
+	_, err = group.AddClient(g.Name(), c, group.ClientCredentials{Username: &whip})
+	return err
+}
+
 func buildPaths() []reqPath {
 	q := core.Quick()
 	gs := segs(core.Pick([]string{"pub", "priv", "redir", "auto/sub"}, []string{"pub", "priv", "redir", "auto", "auto/sub"}), "nosuch", q)
@@ -236,7 +284,9 @@ func buildPaths() []reqPath {
 	ts := segs([]string{"tok1"}, "newtok", q)
 	fs := segs([]string{"rec.webm"}, "nosuch.webm", q)
 	ss := segs([]string{"index.html", "sub", "withindex"}, "nosuch.html", q)
-	ids := []seg{{"unknown", validWhipID()}, {"wrong-length", "AAAA"}, {"not-base64", "!!!!"}, {"empty", ""}}
+	// the obfuscated ids depend on the per-process random key of the
+	// webserver package: paths carry placeholders, resolved when sending
+	ids := []seg{{"existing", phExisting}, {"unknown", phUnknown}, {"wrong-length", "AAAA"}, {"not-base64", "!!!!"}, {"empty", ""}}
 
 	routes := []route{
 		{"/", "static"}, {"/<file>", "static"}, {"/<file>/", "static"},
@@ -262,6 +312,7 @@ func buildPaths() []reqPath {
 		{"/galene-api/v0/.groups/<g>/.tokens/<t>", "api-token"},
 		{"/galene-api/v0/.groups/<g>/.other", "api"},
 	}
+	nRouteTemplates = len(routes)
 	vars := map[string][]seg{"<g>": gs, "<u>": us, "<t>": ts, "<f>": fs, "<file>": ss, "<id>": ids}
 	var out []reqPath
 	for _, r := range routes {
@@ -443,10 +494,11 @@ type httpReq struct {
 }
 
 type httpWorld struct {
-	sb      *sandbox
-	mux     *http.ServeMux
-	mutated bool
-	reqNo   atomic.Int64
+	sb       *sandbox
+	mux      *http.ServeMux
+	mutated  bool
+	reqNo    atomic.Int64
+	setupErr error
 }
 
 func newHTTPWorld() (*httpWorld, error) {
@@ -464,7 +516,11 @@ func newHTTPWorld() (*httpWorld, error) {
 	if err != nil {
 		return nil, err
 	}
-	return &httpWorld{sb: sb, mux: mux}, nil
+	w := &httpWorld{sb: sb, mux: mux}
+	if err := ensureWhipClient(); err != nil {
+		return nil, fmt.Errorf("registering the WHIP client: %w", err)
+	}
+	return w, nil
 }
 
 func (w *httpWorld) close() { os.RemoveAll(w.sb.root) }
@@ -475,7 +531,10 @@ func (w *httpWorld) reset() {
 		w.mutated = false
 	}
 	for _, n := range group.GetNames() {
-		group.Delete(n)
+		group.Delete(n) // refuses groups that still have a client
+	}
+	if err := ensureWhipClient(); err != nil && w.setupErr == nil {
+		w.setupErr = err
 	}
 	vrt.ResetTasks()
 }
@@ -494,7 +553,8 @@ func ctypeValue(name, kind, method string) string {
 
 // do executes one request; it returns the status code or the panic.
 func (w *httpWorld) do(q httpReq) (int, *panicInfo, error) {
-	u, err := url.ParseRequestURI(q.Path)
+	wire := resolveIDs(q.Path)
+	u, err := url.ParseRequestURI(wire)
 	if err != nil {
 		return 0, nil, err
 	}
@@ -502,7 +562,7 @@ func (w *httpWorld) do(q httpReq) (int, *panicInfo, error) {
 	r := &http.Request{
 		Method: q.Method, URL: u, Proto: "HTTP/1.1", ProtoMajor: 1, ProtoMinor: 1,
 		Header: http.Header{}, Body: io.NopCloser(strings.NewReader(body)), ContentLength: int64(len(body)),
-		Host: "galene.example:8443", RemoteAddr: "192.0.2.7:40000", RequestURI: q.Path,
+		Host: "galene.example:8443", RemoteAddr: "192.0.2.7:40000", RequestURI: wire,
 	}
 	if q.Auth != "" {
 		r.Header.Set("Authorization", q.Auth)
@@ -625,11 +685,6 @@ func orNone(s string) string {
 func runHTTPShard(res *core.Result) {
 	o := core.Opts()
 	debug.SetGCPercent(800) // request bodies of 1.1 MB make a lot of short-lived garbage
-	if pf := os.Getenv("C12_CPUPROFILE"); pf != "" {
-		f, _ := os.Create(pf)
-		pprof.StartCPUProfile(f)
-		defer pprof.StopCPUProfile()
-	}
 	c := newPctx(res, httpPart)
 	if core.Want("http-requests") {
 		runHTTPRequests(c, o)
@@ -649,10 +704,10 @@ func runHTTPRequests(c *pctx, o *core.Options) {
 	if core.Quick() {
 		pcs = [][2]string{preconds[0], preconds[2], preconds[3]}
 	}
-	bound := fmt.Sprintf("full product: %d methods %v x %d paths (46 route templates of webserver.go/api.go/whip.go x segment alphabets) x %d credentials x %d content-types %v x %d bodies %v x %d precondition headers",
-		len(methods), methods, len(paths), len(creds), len(ctypes), ctypes, len(bodies), bodies, len(pcs))
+	bound := fmt.Sprintf("full product: %d methods %v x %d distinct paths (%d route templates of webserver.go/api.go/whip.go x segment alphabets) x %d credentials x %d content-types %v x %d bodies %v x %d precondition headers",
+		len(methods), methods, len(paths), nRouteTemplates, len(creds), len(ctypes), ctypes, len(bodies), bodies, len(pcs))
 	a := c.acc("http-requests", bound)
-	a.note = "path segments: group in {existing pub/priv/redir/auto/auto-sub, missing, empty, ., .., .x, a%2Fb, a\\b, 300 chars} (quick: without ., .x, a\\b and group auto), same classes for user, token, recording and static file names; WHIP id in {well-formed unknown, wrong length, not base64, empty}"
+	a.note = "path segments: group in {existing pub/priv/redir/auto/auto-sub, missing, empty, ., .., .x, a%2Fb, a\\b, 300 chars} (quick: without ., .x, a\\b and group auto), same classes for user, token, recording and static file names; WHIP id in {existing (a connection-less WHIP client registered in group pub), well-formed unknown, wrong length, not base64, empty}"
 	w, err := newHTTPWorld()
 	if err != nil {
 		c.res.Fault = "http world: " + err.Error()
@@ -705,6 +760,10 @@ func runHTTPRequests(c *pctx, o *core.Options) {
 		}
 		ok := !c.stop && onePath(pi, p)
 		c.flushHTTPPanics(p.Tmpl)
+		if w.setupErr != nil {
+			c.res.Fault = "http world: re-registering the WHIP client: " + w.setupErr.Error()
+			return
+		}
 		if !ok {
 			a.exhaustive = false
 			break
@@ -800,7 +859,7 @@ func (c *pctx) evalFrag(a *acc, sessions []sdp.SessionDescription, in fragInput)
 	}()
 	if pi != nil {
 		cls := "multi-line"
-		for _, l := range in.Lines {
+		for _, l := range append([]string{""}, in.Lines...) {
 			if fragLinePanics(l) {
 				cls = fmt.Sprintf("line=%q", l)
 				break
